@@ -49,6 +49,8 @@ ViewClauses(e, k, v, tag) ==
             /\ q.err = ""
             /\ q.extent = <<w[1], w[2]>>
             /\ Range([j \in DOMAIN q.matrix |-> <<q.matrix[j][1] + w[1], q.matrix[j][2] + w[3], q.matrix[j][3]>>]) = SubBlockRecords(c, w))>>,
+     \* selector objects obtained from the live object BEFORE the renaming answer by the new names like fresh ones
+     <<"lookupsByNewName:selectorsMadeBefore:" \o tag, v.sel_old = v.sel_new /\ All(v.sel_new, LAMBDA q : q[1] >= 0)>>,
      <<"oldNamesGone:" \o tag, All(v.old_lookups, LAMBDA q : q.err # "")>> >>
 RECURSIVE StageClauses(_, _)
 StageClauses(e, k) ==
